@@ -50,12 +50,23 @@ func (o *skOut) line(format string, a ...any) {
 	o.mu.Unlock()
 }
 
+// skWide: mode 3 of the child renders, after the phone string, every other exported header field too
+// (property word, protocol version, reply id, platform serial): used to see WHAT the writer's reply
+// encoding changes in a delivered message (Header.Encode assigns them by design)
+var skWide bool
+
 func skCanon(m *service.Message) string {
 	s := canonStreamMsg(m)
 	if s == "nil" {
 		return s
 	}
-	return s + "," + m.JTMessage.Header.TerminalPhoneNo
+	s += "," + m.JTMessage.Header.TerminalPhoneNo
+	if skWide {
+		h := m.JTMessage.Header
+		s += fmt.Sprintf("|ver=%d.frag=%d.enc=%d.blen=%d.pv=%d.rid=%d.ps=%d", h.Property.Version, h.Property.PacketFragmented,
+			h.Property.EncryptMethod, h.Property.BodyDayaLen, h.ProtocolVersion, h.ReplyID, h.PlatformSerialNumber)
+	}
+	return s
 }
 
 type skEventer struct {
@@ -178,12 +189,17 @@ func SockServeIfChild() {
 	addr := skFreeAddr()
 	var n int64
 	slow := atoi("0" + os.Getenv("VERIFH_SOCK_SLOW"))
-	g := service.New(service.WithHostPorts(addr),
+	opts := []service.Option{service.WithHostPorts(addr)}
+	if slow == 3 { // sub-package filtering off (every packet reaches the callbacks and is answered), wide rendering
+		skWide = true
+		opts = append(opts, service.WithHasSubcontract(false))
+	}
+	g := service.New(append(opts,
 		service.WithCustomTerminalEventer(func() service.TerminalEventer {
 			e := &skEventer{n: atomic.AddInt64(&n, 1), out: out, slow: slow}
 			out.line("O %d", e.n)
 			return e
-		}))
+		}))...)
 	go g.Run()
 	out.line("A %s", addr)
 	io.Copy(io.Discard, os.Stdin) // lives as long as the parent keeps the pipe open
@@ -618,4 +634,5 @@ func init() {
 	RegisterOp("sk", func(a []string) string { return SkPlay(SkParseSteps(a)).String() })
 	RegisterOp("sk1", func(a []string) string { return SkPlayMode(SkParseSteps(a), 1).String() })
 	RegisterOp("sk2", func(a []string) string { return SkPlayMode(SkParseSteps(a), 2).String() })
+	RegisterOp("sk3", func(a []string) string { return SkPlayMode(SkParseSteps(a), 3).String() })
 }
